@@ -89,7 +89,7 @@ class C16(PropBase):
                     "transform_latents_with_parents visits latents in a topological order of the input DAG (the implementation's lazy networkx generator is "
                     "assumed equivalent; checked by correspondence)"]
     modelled = ["graph.py to_latent_variable_dag/_latent_dag/from_latent_variable_dag; simplify_latent.py all four rules and simplify_latent_dag",
-                "NOT modelled: taheri_design.py consumer, evans_simplify wrapper (composition of the above)"]
+                "evans_simplify (the public wrapper, with latents=) as the composition of the above; NOT modelled: taheri_design.py consumer"]
     assumptions = ["'separation relations and identifiability verdicts unchanged' is a corollary of projection equality given C04/C02 and is not separately proved"]
 
     def gen(self, rng, tier, n, shard, nshards):
@@ -100,7 +100,11 @@ class C16(PropBase):
             for g in GG.corpus_graphs():
                 cases.append({"kind": "round", "g": {k: g[k] for k in ("nodes", "dir", "bid")}})
         while len(cases) < n:
-            if rng.random() < 0.3:
+            if rng.random() < 0.12:
+                # the public wrapper, with its rarely used latents= argument: an ADMG some of whose nodes are declared latent as well
+                g = GG.rand_admg(rng, 3, 6)
+                cases.append({"kind": "evans", "g": g, "lat": rng.sample(g["nodes"], rng.randint(0, max(1, len(g["nodes"]) - 2)))})
+            elif rng.random() < 0.3:
                 cases.append({"kind": "round", "g": GG.rand_admg(rng, 2, 6)})
             elif rng.random() < 0.3:
                 # a directed chain of 3..4 latents with observed nodes hanging off it (the bypass edges of rule 2 between two latents matter)
@@ -155,6 +159,27 @@ class C16(PropBase):
             iso = set(case["g"]["nodes"]) - {x for e in case["g"]["dir"] + case["g"]["bid"] for x in e}
             return {"out": out, "violation": violation, "nontrivial": bool(case["g"]["bid"]) or bool(iso),
                     "features": ["round", "isolated" if iso else "no-isolated", f"bid={len(case['g']['bid'])}"], "key": "C16/roundtrip"}
+        if case["kind"] == "evans":
+            from y0.algorithm.simplify_latent import evans_simplify
+            gr = GG.to_y0(case["g"])
+            before = GG.snapshot(gr)
+            extra = {GG.V(v) for v in case["lat"]}
+            res = evans_simplify(gr, latents=extra) if (extra or len(case["g"]["nodes"]) % 2) else evans_simplify(gr)
+            dag = gr.to_latent_variable_dag()
+            for node, data in dag.nodes(data=True):
+                if node in extra:
+                    data["hidden"] = True
+            d = lv_of_nx(dag)
+            simplify_latent_dag(dag)
+            out = {"lv": lv_of_nx(dag), "admg": admg_enc(res), "d": d}
+            want, got = projection(d), sets_of(out["admg"])
+            if got != want:
+                violation = (f"evans_simplify(G, latents={sorted(case['lat'])}) gave {sorted(got[1])}/{sorted(map(sorted, got[2]))} nodes {sorted(got[0])}, "
+                             f"not the latent projection {sorted(want[1])}/{sorted(map(sorted, want[2]))} nodes {sorted(want[0])}")
+            if GG.snapshot(gr) != before:
+                violation = violation or "evans_simplify modified the graph"
+            return {"out": out, "violation": violation, "nontrivial": bool(case["lat"]) or bool(case["g"]["bid"]),
+                    "features": ["evans", f"n={len(case['g']['nodes'])}", f"declared-latents={len(case['lat'])}"], "key": "C16/projection"}
         d = case["d"]
         dag = nx_of_lv(d)
         simplify_latent_dag(dag)
@@ -182,6 +207,8 @@ class C16(PropBase):
             g = case["g"]
             g2 = {"nodes": [2 * v for v in g["nodes"]], "dir": [[2 * a, 2 * b] for a, b in g["dir"]], "bid": [[2 * a, 2 * b] for a, b in g["bid"]]}
             return f"CRound {c_graph(g2)} {c_lv(res['out']['lv'])} {c_graph(res['out']['back'])}"
+        if case["kind"] == "evans":
+            return f"CSimp {c_lv(res['out']['d'])} {c_lv(res['out']['lv'])} {c_graph(res['out']['admg'])}"
         return f"CSimp {c_lv(case['d'])} {c_lv(res['out']['lv'])} {c_graph(res['out']['admg'])}"
 
     def finding_key(self, case, res):
